@@ -118,21 +118,42 @@ class Module:
     def _scan(self):
         for n in self.tree.body:
             self._scan_stmt(n)
-        for n in ast.walk(self.tree):
-            if isinstance(n, ast.Call) and isinstance(n.func, ast.Name) and n.func.id in FORBIDDEN_CALLS:
-                self.forbidden.append((n.lineno, n.func.id + "()"))
-            elif isinstance(n, (ast.Global, ast.Nonlocal, ast.Yield, ast.YieldFrom, ast.AsyncFunctionDef, ast.Await)):
-                self.forbidden.append((n.lineno, type(n).__name__))
-            elif isinstance(n, ast.Attribute) and n.attr in ("__dict__", "__class__", "__globals__"):
-                self.forbidden.append((n.lineno, "." + n.attr))
-            elif isinstance(n, ast.ImportFrom) and any(a.name == "*" for a in n.names):
-                self.forbidden.append((n.lineno, "star import"))
-            elif isinstance(n, (ast.FunctionDef, ast.ClassDef)) and n.decorator_list:
-                for d in n.decorator_list:
-                    dn = dotted_of(d.func if isinstance(d, ast.Call) else d) or "?"
-                    if dn.split(".")[-1] in ("lru_cache", "cache"):
-                        continue          # modelled: the function's results are shared between calls (Func.cached)
-                    self.forbidden.append((n.lineno, "decorator @%s on %s" % (dn, n.name)))
+        # constructs outside the modelled Python subset, each with the function (qualified name) that contains it - None at
+        # module level.  A check is inconclusive only when a function it *analysed* contains one (see __main__).
+        self.forbidden_in = []          # (lineno, what, owner qname | None)
+
+        def owner_walk(node, owner):
+            for ch in ast.iter_child_nodes(node):
+                own = owner
+                if isinstance(ch, (ast.FunctionDef, ast.AsyncFunctionDef)) and owner is None or isinstance(node, ast.ClassDef) and isinstance(ch, ast.FunctionDef):
+                    own = "%s.%s.%s" % (self.name, node.name, ch.name) if isinstance(node, ast.ClassDef) else "%s.%s" % (self.name, ch.name)
+                elif isinstance(ch, ast.ClassDef) and owner is None:
+                    own = None
+                self._flag(ch, own)
+                owner_walk(ch, own)
+        owner_walk(self.tree, None)
+        self.forbidden = [(ln, what) for ln, what, _ in self.forbidden_in]
+
+    def _flag(self, n, owner):
+        add = lambda what: self.forbidden_in.append((n.lineno, what, owner))
+        if isinstance(n, ast.Call) and isinstance(n.func, ast.Name) and n.func.id in FORBIDDEN_CALLS:
+            add(n.func.id + "()")
+        elif isinstance(n, (ast.Global, ast.Nonlocal, ast.Yield, ast.YieldFrom, ast.AsyncFunctionDef, ast.Await)):
+            add(type(n).__name__)
+        elif isinstance(n, ast.Attribute) and n.attr in ("__dict__", "__class__", "__globals__"):
+            add("." + n.attr)
+        elif isinstance(n, ast.ImportFrom) and any(a.name == "*" for a in n.names):
+            add("star import")
+        elif isinstance(n, (ast.FunctionDef, ast.ClassDef)) and n.decorator_list:
+            for d in n.decorator_list:
+                dn = dotted_of(d.func if isinstance(d, ast.Call) else d) or "?"
+                if dn.split(".")[-1] in ("lru_cache", "cache"):
+                    continue          # modelled: the function's results are shared between calls (Func.cached)
+                # a decorated function is only a problem for the checks that analyse *it*
+                own = owner
+                if isinstance(n, ast.FunctionDef) and owner is not None and owner.endswith("." + n.name):
+                    own = owner
+                self.forbidden_in.append((n.lineno, "decorator @%s on %s" % (dn, n.name), own if isinstance(n, ast.FunctionDef) else None))
 
     def _scan_stmt(self, n):
         if isinstance(n, ast.Import):
